@@ -243,10 +243,35 @@ class CallMixin:
         if isinstance(obj, pytypes.FunctionType):
             return self.call_function(s, obj, args, kwargs, node)
         if isinstance(obj, pytypes.BuiltinFunctionType):
+            import re as _re
+            if isinstance(getattr(obj, "__self__", None), _re.Pattern):
+                return self.re_call(s, obj.__self__, obj.__name__, args, kwargs, node)
             return self.call_builtin(s, obj, args, kwargs, node)
         if callable(obj) and all(a.is_py for a in args) and not kwargs and getattr(obj, "__module__", "").startswith("pyvc"):
             return [(s, self.lift(obj(*[a.t for a in args])))]
         raise Unsupported(f"call of {obj!r}")
+
+    def re_call(self, s, pattern, method, args, kwargs, node):
+        """pattern.match/search/fullmatch(subject) on a symbolic subject: truthiness is language membership
+        (pyvc.rx); the Match object itself is not modelled here (captures: see the capture calculus)."""
+        from . import rx
+        subj = args[0]
+        if subj.is_py:
+            subj = self.lift(subj.t)
+        if len(args) > 1 or kwargs:
+            raise Unsupported("re method with pos/endpos")
+        if method not in ("match", "search", "fullmatch"):
+            raise Unsupported(f"re.Pattern.{method} on a symbolic subject")
+        key = (pattern.pattern, pattern.flags, method)
+        lang = self._rx_cache.get(key)
+        if lang is None:
+            try:
+                L = rx.Lang(pattern)
+                lang = {"match": L.match_lang, "search": L.search_lang, "fullmatch": L.fullmatch_lang}[method]()
+            except rx.RxUnsupported as e:
+                raise Unsupported(f"regex outside the language fragment: {pattern.pattern!r}: {e}")
+            self._rx_cache[key] = lang
+        return [(s, Val(BOOL, z3.InRe(subj.t, lang), {"match": (pattern, method, subj)}))]
 
     def call_bound(self, s, bm: BoundMethod, args, kwargs, node):
         recv = bm.recv
